@@ -86,14 +86,14 @@ class K:
             emit(f"{dd(i)} <= 1 && ({dd(i)} == 0 || {dv(i)} <= {i})", f"blocker of {i} is a predecessor or itself")
             emit(f"{LA}[{i}] == {N} || {LA}[{i}] < {i}", f"last blocker of {i} is a strict predecessor")
             emit(f"!({i} < {com}) || {PH}[{i}] == 2", f"committed tx {i} is done")
-            emit(f"!({PH}[{i}] != 0) || {dd(i)} == 0", f"(c,d) executing/done tx {i} has no blocker")
+            emit(f"!({dd(i)} == 1) || {onb(i)}", f"(c) a blocked tx {i} is onboard (only unblocked txs are taken off board)")
             emit(f"!({PH}[{i}] == 0) || {onb(i)}", f"(e) queued tx {i} is onboard")
             emit(f"!({onb(i)} && {dd(i)} == 0) || {idx} <= {i}", f"(f) onboard unblocked tx {i} is at or after the cursor")
-            emit(f"!({PH}[{i}] == 0 && {dd(i)} == 1 && {dv(i)} == {i}) || {com} < {i}",
+            emit(f"!({dd(i)} == 1 && {dv(i)} == {i}) || {com} < {i}",
                  f"(g) own-boundary barrier of {i} only while the committed prefix is below it")
             for d in range(i):
                 live = f"({PH}[{d}] == 1 || ({onb(d)} && ({dd(d)} == 1 || {idx} <= {d})))"
-                emit(f"!({PH}[{i}] == 0 && {dd(i)} == 1 && {dv(i)} == {d}) || ({aff(d, i)} && {live})",
+                emit(f"!({dd(i)} == 1 && {dv(i)} == {d}) || ({aff(d, i)} && {live})",
                      f"(g) tx {i} blocked by {d}: reverse edge present and blocker live")
                 emit(f"!({PH}[{i}] == 0 && {LA}[{i}] == {d} && {PH}[{d}] != 2 && {CD} < {i}) || ({dd(i)} == 1 && {dv(i)} == {d})",
                      f"(h) tx {i} still waits for its unresolved blocker {d} (no stale release)")
@@ -140,33 +140,35 @@ class K:
             H.c(f"if ({d} == {H.variant(nx, '', 'Some')}) {{")
             H.assert_(f"{v} == {t} + 1 && {v} < {N}", "direct hand-off is the immediate successor")
             if chain:
-                H.cvar(f"hm{u}", "unsigned char", shared=False)
-                H.c(f"__CPROVER_atomic_begin(); __CPROVER_assume({v} < {N} && !txl[{v}]); hm{u} = {PH}[{v}]; if (hm{u} == 0) {{ {PH}[{v}] = 1; txl[{v}] = 1; }} __CPROVER_atomic_end();")
-                H.assert_(f"hm{u} == 0", "a handed-off successor was queued (not executing, not done)")
-                H.c(f"if (hm{u} == 0) {{")
-                H.call("TxDependency::remove", [H.ref(D), H.val(v), H.val("0", "_Bool")])
-                H.c(f"__CPROVER_atomic_begin(); {PH}[{v}] = 2; txl[{v}] = 0; __CPROVER_atomic_end(); }}")
+                self.dispatch(D, v, PH, u)
             else:
                 H.assert_("0", "hand-off without request")
             H.c("}")
 
+    def dispatch(self, D, v, PH, u):
+        """Scheduler::execution_task(v): lock tx v's state (ghost txl), then by status: queued -> executing (the new
+        executor's own finish is a later step), executing -> nothing, done -> remove(v, false).  A tx whose executor is
+        not part of this step keeps its lock for the whole step: the claimer's step ends waiting for it."""
+        H, N = self.H, self.N
+        H.cvar(f"st{u}", "unsigned char", shared=False)
+        H.c(f"if ({v} < {N} && !({PH}[{v}] == 1 && !instep[{v}])) {{")
+        H.c(f"__CPROVER_atomic_begin(); __CPROVER_assume({v} < {N} && !txl[{v}]); st{u} = {PH}[{v}]; if (st{u} == 0) {{ {PH}[{v}] = 1; }} __CPROVER_atomic_end();")
+        H.c(f"if (st{u} == 2) {{")     # duplicate claim of an already executed blocker releases its dependents
+        H.call("TxDependency::remove", [H.ref(D), H.val(v), H.val("0", "_Bool")])
+        H.c("}")
+        H.c("}")
+
     def claim_step(self, D, C, PH, LA):
-        """worker: next(); execution_task's status dispatch; a freshly claimed tx runs to success"""
+        """worker: next(); execution_task's status dispatch"""
         H, N = self.H, self.N
         self.uid += 1
         u = self.uid
         r = H.local(f"cl{u}", "Option<usize>")
-        H.cvar(f"st{u}", "unsigned char", shared=False)
         H.call("TxDependency::next", [H.ref(D)], r)
         d, v = H.lv(r, "d"), H.lv(r, "Some.0")
         H.c(f"if ({d} == {H.variant(r, '', 'Some')}) {{")
         H.assert_(f"{v} < {N}", "claimed index within the block")
-        H.c(f"__CPROVER_atomic_begin(); __CPROVER_assume({v} < {N} && !txl[{v}]); st{u} = {PH}[{v}]; if (st{u} == 0) {{ {PH}[{v}] = 1; txl[{v}] = 1; }} __CPROVER_atomic_end();")
-        H.c(f"if (st{u} == 0) {{")
-        self.finish(D, C, v, "S", PH, LA, chain=False)
-        H.c(f"}} else if (st{u} == 2) {{")     # duplicate claim of an already executed blocker releases its dependents
-        H.call("TxDependency::remove", [H.ref(D), H.val(v), H.val("0", "_Bool")])
-        H.c("}")
+        self.dispatch(D, v, PH, u)
         H.c("}")
 
     def commit_step(self, D, C, PH, CD, assume_ready=False):
@@ -180,7 +182,7 @@ class K:
         H.c("}")
 
 
-def build_pair(N, roles):
+def build_pair(N, roles, fix=None):
     """roles: list of 'S','B','U','K' (finish an executing tx that way), 'N' (claim step), 'C' (commit)"""
     def b(tr):
         H = hz.Harness(tr, "c16_" + "".join(roles))
@@ -191,17 +193,17 @@ def build_pair(N, roles):
         H.cvar("phase", "unsigned char", dims=[N]); H.cvar("last_add", "usize", dims=[N]); H.cvar("commit_done", "usize")
         H.cvar("txl", "_Bool", dims=[N])      # ghost of tx_states[i]'s mutex: held by the executor until status is updated
         k.havoc(D, C, "phase", "last_add", "commit_done")
+        H.cvar("instep", "_Bool", dims=[N])   # ghost: tx i's executor acts in this step (others stay executing throughout)
         for i in range(N):
-            H.c(f"txl[{i}] = (phase[{i}] == 1);")
+            H.c(f"txl[{i}] = 0; instep[{i}] = 0;")
         execs = [r for r in roles if r in "SBUK"]
         for n, r in enumerate(execs):
             H.param(f"T{n}")
-            H.c(f"T{n} = nondet_usize(); __CPROVER_assume(T{n} < {N} && phase[T{n}] == 1);")
+            H.c(f"T{n} = nondet_usize(); __CPROVER_assume(T{n} < {N} && phase[T{n}] == 1);" if not (fix and n in fix) else
+                f"T{n} = {fix[n]}; __CPROVER_assume(phase[T{n}] == 1);")
             for m in range(n):
                 H.c(f"__CPROVER_assume(T{n} != T{m});")
-        # every executing tx has an executor thread
-        cond = " && ".join(f"(phase[{i}] != 1" + "".join(f" || T{n} == {i}" for n in range(len(execs))) + ")" for i in range(N))
-        H.assume(cond)
+            H.c(f"instep[T{n}] = 1; txl[T{n}] = 1;")
         if "C" in roles:
             H.assume(f"commit_done < {N} && phase[commit_done < {N} ? commit_done : 0] == 2")
         n = 0
@@ -222,10 +224,10 @@ def build_pair(N, roles):
         H.c("cd = commit_done;")
         for i in range(N):
             H.c(f"ph[{i}] = phase[{i}]; la[{i}] = last_add[{i}];")
-        k.inv(sd, sc, "ph", "la", "cd", lambda c, m: H.assert_(c, "INV " + m), allow_executing=False)
+        k.inv(sd, sc, "ph", "la", "cd", lambda c, m: H.assert_(c, "INV " + m), allow_executing=True)
         a = k.acc(sd, sc)
-        H.cover(f"ph[{N - 1}] == 0 && {a['dd'](N - 1)} == 1 && {a['dv'](N - 1)} < {N - 1}", "a tx ends blocked behind a predecessor")
-        H.cover(f"ph[{N - 1}] == 2", "last tx done")
+        H.cover(" || ".join(f"(ph[{i}] == 0 && {a['dd'](i)} == 1 && {a['dv'](i)} < {i})" for i in range(1, N)), "a tx ends blocked behind a predecessor")
+        H.cover(" || ".join(f"ph[{i}] == 2" for i in range(N)), "some tx done")
         return H
     return b
 
@@ -244,10 +246,19 @@ def build_completion(N):
         for i in range(N):
             H.assume(f"ph[{i}] != 1")
         a = k.acc(D, C)
-        H.cvar("dk", "int", shared=False)
+        H.cvar("dk", "int", shared=False); H.cvar("TT", "usize", shared=False)
+        H.cvar("instep", "_Bool", dims=[N], shared=False)
+        for i in range(N):
+            H.c(f"instep[{i}] = 1;")
         rounds = 3 * N + 2
         H.c(f"for (dk = 0; dk < {rounds}; dk++) {{")
         k.claim_step(D, C, "ph", "la")
+        H.c(f"TT = {N};")
+        for i in reversed(range(N)):
+            H.c(f"if (ph[{i}] == 1) TT = {i};")
+        H.c(f"if (TT < {N}) {{")
+        k.finish(D, C, "TT", "S", "ph", "la")
+        H.c("}")
         k.commit_step(D, C, "ph", "cd")
         H.c("}")
         for i in range(N):
@@ -264,28 +275,44 @@ def cfg(N):
             "loops": {"TxDependency::remove": {"*": (N + 1, "assert")}}}
 
 
-PAIRS = ["SB", "SU", "SK", "SN", "SC", "BB", "BU", "BK", "BN", "BC", "UK", "UN", "UC", "KN", "KC", "NN", "NC", "SS", "UU", "KK"]
+SINGLES = ["S", "B", "U", "K", "N", "C"]
+QUICK_PAIRS = ["SC", "BB", "BU", "BK", "BC", "UK", "UN", "UC", "KN", "KC", "NC", "UU", "KK"]     # each < ~2.5 min
+SLOW_PAIRS = ["SB", "SU", "SK", "BN"]                # 4-12 min each
+SPLIT_PAIRS = ["SN", "SS", "NN"]                     # only decided when case-split on the executors' transaction ids
 TRIPLES = ["BSC", "BBS", "KCN", "BNC", "SSB", "BKC", "UNC", "BBN"]
+ROLE_DOC = "(S finish ok+handoff, B blocked by predecessor, U retry, K error barrier, N cursor claim + status dispatch, C commit)"
 
 
 def specs(tier):
-    N = 3
     out = [Spec("completion_n3", build_completion(3), cfg=cfg(3), unwind=14, timeout=1200,
                 desc="sequential: from an arbitrary INV state (nothing executing) repeated next()/remove()/commit() finishes the block",
                 bounds={"n": 3, "threads": 1, "rounds": 11})]
-    for p in PAIRS:
+    for p in SINGLES:
+        out.append(Spec(f"step_{p}_n3", build_pair(3, list(p)), cfg=cfg(3), unwind=6, timeout=900,
+                        desc=f"one role alone from an arbitrary INV state: {p} " + ROLE_DOC,
+                        bounds={"n": 3, "threads": 1}))
+    for p in QUICK_PAIRS:
         out.append(Spec(f"step_{p}_n3", build_pair(3, list(p)), cfg=cfg(3), unwind=6, timeout=1200,
-                        desc=f"one concurrent step from an arbitrary INV state: roles {' || '.join(p)} "
-                             "(S finish ok+handoff, B blocked by predecessor, U retry, K error barrier, N cursor claim, C commit)",
+                        desc=f"one concurrent step from an arbitrary INV state: roles {' || '.join(p)} " + ROLE_DOC,
                         bounds={"n": 3, "threads": len(p), "memory_model": "SC"}))
     if tier == "thorough":
+        for p in SLOW_PAIRS:
+            out.append(Spec(f"step_{p}_n3", build_pair(3, list(p)), cfg=cfg(3), unwind=6, timeout=3600,
+                            desc=f"roles {' || '.join(p)} " + ROLE_DOC, bounds={"n": 3, "threads": 2, "memory_model": "SC"}))
+        for p in SPLIT_PAIRS:
+            for t0 in range(3):
+                if p[0] == "N":
+                    continue
+                out.append(Spec(f"step_{p}_T{t0}_n3", build_pair(3, list(p), fix={0: t0}), cfg=cfg(3), unwind=6, timeout=7200,
+                                desc=f"roles {' || '.join(p)}, first executor's transaction fixed to {t0} (case split)",
+                                bounds={"n": 3, "threads": 2, "memory_model": "SC"}))
+        out.append(Spec("step_NN_n3", build_pair(3, list("NN")), cfg=cfg(3), unwind=6, timeout=7200,
+                        desc="two concurrent cursor claims", bounds={"n": 3, "threads": 2}))
         for p in TRIPLES:
             out.append(Spec(f"step_{p}_n3", build_pair(3, list(p)), cfg=cfg(3), unwind=6, timeout=7200,
                             desc=f"three concurrent roles {' || '.join(p)} from an arbitrary INV state",
                             bounds={"n": 3, "threads": 3}))
-        for p in ["SB", "BC", "KC", "BN", "SN"]:
+        for p in ["B", "S", "KC", "BC"]:
             out.append(Spec(f"step_{p}_n4", build_pair(4, list(p)), cfg=cfg(4), unwind=7, timeout=7200,
-                            desc=f"roles {' || '.join(p)} at n=4", bounds={"n": 4, "threads": 2}))
-        out.append(Spec("completion_n4", build_completion(4), cfg=cfg(4), unwind=17, timeout=7200,
-                        desc="completion at n=4", bounds={"n": 4, "threads": 1}))
+                            desc=f"roles {' || '.join(p)} at n=4", bounds={"n": 4, "threads": len(p)}))
     return out
